@@ -46,6 +46,13 @@ REAL_STUB = {"real": ["onnx_ir._cloner", "Model/Graph/Function/GraphView.clone",
 
 CLONE_KINDS = ["model", "model_deep", "graph", "graph_deep", "function", "view", "view_partial", "functionalize", "subgraph_outer_allowed", "subgraph_outer_forbidden"]
 PASSES = ["RemoveUnusedNodesPass", "IdentityEliminationPass", "NameFixPass", "TopologicalSortPass", "CommonSubexpressionEliminationPass", "DeduplicateInitializersPass", "LiftConstantsToInitializersPass", "InlinePass", "ClearMetadataAndDocStringPass", "OutputFixPass"]
+def _composition(run_seed: int):
+    cr = Streams(run_seed).rng("functionalize-composition")
+    if cr.random() < 0.5:
+        return None
+    return {"checker_first": cr.random() < 0.7, "others": [[cr.choice(PASSES), cr.random() < 0.4] for _ in range(cr.choice([1, 2]))], "steps": cr.choice([1, 2]), "manager": cr.random() < 0.5}
+
+
 EDIT_WEIGHTS = {
     "replace_input": 8, "resize_inputs": 2, "resize_outputs": 2, "rauw": 4, "value_name": 6, "value_attrs": 14, "node_attrs": 8, "rename_values": 3,
     "append": 2, "remove": 4, "insert_before": 2, "new_value": 2, "new_node": 3, "io_append": 2, "io_setitem": 2, "io_delitem": 2, "io_pop": 1,
@@ -67,7 +74,7 @@ def gen_case(run_seed: int, tier: str, index: int = 0) -> dict:
         params["unsorted"] = False
     edits = ops.gen_ops(r, r.choice([10, 20, 40]), names=list(EDIT_WEIGHTS), weights=EDIT_WEIGHTS)
     route = [r.randrange(2) for _ in edits]
-    return {"property": PROPERTY, "run_seed": run_seed, "model_seed": r.randrange(1 << 30), "params": params, "clone": kind, "pass": r.choice(PASSES), "devices": r.random() < 0.3, "edits": edits, "route": route, "meta_noise": r.random() < 0.5, "nested_types": r.choice([0, 0, 1, 2, 3])}
+    return {"property": PROPERTY, "run_seed": run_seed, "model_seed": r.randrange(1 << 30), "params": params, "clone": kind, "pass": r.choice(PASSES), "composition": _composition(run_seed), "devices": r.random() < 0.3, "edits": edits, "route": route, "meta_noise": r.random() < 0.5, "nested_types": r.choice([0, 0, 1, 2, 3])}
 
 
 def _aux_ids(w: World, deep: bool = False) -> dict:
@@ -320,6 +327,19 @@ def run_case(case: dict) -> dict:
         before = snapshot.snapshot(w1, tensors=False)
         pb = _proto_bytes(model)
         p = getattr(common_passes, case["pass"])()
+        comp = case.get("composition")
+        if comp:
+            # functionalize(<composition>): a pass that only inspects the model first (CheckerPass), then in-place passes
+            # and already functionalized ones
+            import onnx_ir.passes as _passes
+
+            members = [common_passes.CheckerPass()] if comp["checker_first"] else []
+            members.append(p)
+            for nm, wrap in comp["others"]:
+                q = getattr(common_passes, nm)()
+                members.append(functionalize(q) if wrap else q)
+            p = _passes.PassManager(members, steps=comp["steps"], early_stop=True) if comp["manager"] else _passes.Sequential(*members)
+            inc("functionalize_composition")
         try:
             result = functionalize(p)(model)
         except Exception as e:  # noqa: BLE001
